@@ -6,6 +6,10 @@ props = [json.loads(l) for l in open(os.path.join(V, "properties.jsonl"))]
 
 EVAL_NOTE = "trusted: TLC; the renderer's canonical layout and path->line map; H2 hook events (emitted after each VM state change in the single evaluator goroutine); program families are bounded (sizes in the evidence)"
 CHECKS = {
+ "C14": dict(
+   technique="TLA+ character-sequence spec of text operations (ZnText) and template scanner state machine with directive plans (ZnFmt) model-checked by TLC; TLC-enumerated texts/index pairs and templates replayed through the interpreter",
+   level="Text: TLC enumerates all texts <= 4 over 5 encoded-width classes (ASCII, 2-byte, CJK, astral, combining mark) x index pairs from {-6,-2,-1,0..6} (78100 vectors; quick replays a seeded 30000): 长度/字数, 字符组, 分隔 by the empty text, 取样 (exactly characters i..j inside the documented range; elsewhere a catchable error or a run of whole characters) and the split/join law with the spec's pieces. Format: all templates <= 5 (thorough 6) over {text,{,},#,+,.,digit,E,%} plus long-precision templates are scanned by the spec's state machine (TLC checks all literal text is copied verbatim) and each is applied to 4 argument shapes: the result text or the error must agree.",
+   note="trusted: TLC; strconv.FormatFloat for the digits of the verb/precision/sign the spec selects; interpreter's own display form inside {}", ref="5 C14"),
  "C13": dict(
    technique="TLA+ literal reader state machine and canonical writer (ZnStr) with the round-trip invariant model-checked by TLC; TLC-enumerated literals replayed through zh.NextToken and Interpreter.Execute",
    level="TLC enumerates every text of length <= 3 over the 29-symbol critical alphabet x 3 openers x 2 writer styles (and <= 2 x all 5 openers; thorough also <= 5 over 10 symbols), writes it as a literal with the spec's Encode and checks on the spec that the reader state machine returns exactly the text, closes at the last character and never meets an undocumented back-tick sequence. The same literals - plus every raw body <= 4 over 16 symbols, <= 3 over all 29, <= 5 over 10 and every `U+hex` escape with <= 8 hex digits - are read by the real lexer: value, closing position, token type and 'unterminated => syntax error 27' must agree (quick: seeded 200000 literals x 2 concrete renderings); literals of the “ ” / 「 」 families also run end to end.",
